@@ -24,7 +24,7 @@ theorem extendLoop_sem (H : Hyp a T) (R : Ptr → Rat) {F P h : List Word} {L nu
           (write = true → Lw = L ∧
             (extendLoop T R seen (h.take nu0) bs (((List.range L).map (fun i => pre F i ++ P)).drop i0) write).nextUse = nu0)) ∨
        ((extendLoop T R seen (h.take nu0) bs (((List.range L).map (fun i => pre F i ++ P)).drop i0) write).makeFull = true ∧
-          write = true ∧ CN T F P h Lw)) := by
+          write = true ∧ CNL T F P h L Lw)) := by
   have haddl : (h.take nu0).length = nu0 := by rw [List.length_take]; have := C.nu0_le; omega
   let v0 : ExtendReturn := { nextUse := nu0, backIn := bs.take nu0 }
   have hdef : ∀ ps, extendLoop T R seen (h.take nu0) bs ps write =
